@@ -6,14 +6,17 @@ import Ssv.Proofs.Heights
 
 namespace Ssv.Heights
 
-/-- a stored record is decided and contains its own certificate, unless the certificate's round is in the part
-    of the commit container that `CompactCopy` trims away (rounds below `State.Round`) -/
+/-- a stored record is decided, and `LongestUniqueSignersForRoundAndRoot` on its own commit container finds at least
+    the signers of its certificate (the certificate is in the container, or is the aggregate of single commits that
+    are) — unless the certificate's round is in the part that `CompactCopy` trims away (rounds below `State.Round`) -/
 def StoredWf (a : Stored) : Prop :=
-  a.inst.decided = true ∧ (a.inst.round ≤ a.cert.round → a.cert ∈ a.inst.commits)
+  a.inst.decided = true ∧
+  (a.inst.round ≤ a.cert.round → a.cert.signers.length ≤ longest a.inst.commits a.cert.round a.cert.root)
 
 /-- the in-memory instance `i` carries the stored record `a` -/
 def Carries (i : Inst) (a : Stored) : Prop :=
-  i.decided = true ∧ i.round = a.inst.round ∧ (a.inst.round ≤ a.cert.round → a.cert ∈ i.commits)
+  i.decided = true ∧ i.round = a.inst.round ∧
+  (a.inst.round ≤ a.cert.round → a.cert.signers.length ≤ longest i.commits a.cert.round a.cert.root)
 
 structure CInv (c : Ctrl) (st : Store) : Prop where
   top : TopOk c.height c.insts
@@ -72,7 +75,8 @@ theorem CInv.start {c c' : Ctrl} {st : Store} {h : Nat} (inv : CInv c st) (hs : 
 theorem Carries.trim {i : Inst} {a : Stored} (h : Carries i a) : Carries (trim i) a := by
   refine ⟨h.1, h.2.1, ?_⟩
   intro hr
-  exact mem_trim_commits.mpr ⟨h.2.2 hr, by rw [h.2.1]; exact hr⟩
+  rw [longest_trim i _ _ (by rw [h.2.1]; exact hr)]
+  exact h.2.2 hr
 
 theorem CInv.compact {c : Ctrl} {st : Store} (inv : CInv c st) (h : Nat) : CInv (compactAt c h) st := by
   unfold compactAt
@@ -134,9 +138,9 @@ theorem saveFound_congr {c c' : Ctrl} (st : Store) (h : Nat) (m : Msg) (hi : c'.
       rw [hih]; exact decide_eq_decide.mpr hh
     rw [this]
 
-/-- the instance of height `h`, if in the container, is decided and has `m` (unless trimmed) -/
+/-- the instance of height `h`, if in the container, is decided and covers `m` (unless trimmed) -/
 def Fresh (l : List Inst) (h : Nat) (m : Msg) : Prop :=
-  ∀ i, find l h = some i → i.decided = true ∧ (i.round ≤ m.round → m ∈ i.commits)
+  ∀ i, find l h = some i → i.decided = true ∧ (i.round ≤ m.round → m.signers.length ≤ longest i.commits m.round m.root)
 
 theorem CInv.saveFound {c : Ctrl} {st : Store} {h : Nat} {m : Msg} (inv : CInv c st) (hh : h ≤ c.height)
     (hfr : Fresh c.insts h m) : CInv c (saveFound c st h m) := by
@@ -150,7 +154,9 @@ theorem CInv.saveFound {c : Ctrl} {st : Store} {h : Nat} {m : Msg} (inv : CInv c
     · intro a ha; rw [hs] at ha; cases ha
       refine ⟨hdec, ?_⟩
       intro hr
-      exact mem_trim_commits.mpr ⟨hmem hr, hr⟩
+      show m.signers.length ≤ longest (trim i).commits m.round m.root
+      rw [longest_trim i _ _ hr]
+      exact hmem hr
     · intro a ha _; rw [hs] at ha; cases ha
       obtain ⟨rest, hl⟩ := inv.top.find_head (hhc ▸ hf)
       exact ⟨i, rest, hl, by omega, hdec, rfl, hmem⟩
@@ -217,7 +223,7 @@ theorem decidedBranch_fresh (c : Ctrl) (st : Store) (h : Nat) (m : Msg) (hsave :
     rcases decidedBranch_mem (st := st) (m := m) hf with ⟨_, h2, _⟩ | ⟨i', hi', h1, _, hd, hm, _⟩
     · rw [h2] at hsave; cases hsave
     · rw [h1, find_replaceInst_same hf hi'] at hx; cases hx
-      exact ⟨hd, fun _ => hm⟩
+      exact ⟨hd, fun _ => longest_ge hm⟩
   | none =>
     rcases decidedBranch_notmem (st := st) (m := m) hf with h1 | ⟨h1, _⟩
     · rw [h1, hf] at hx; cases hx
@@ -225,7 +231,7 @@ theorem decidedBranch_fresh (c : Ctrl) (st : Store) (h : Nat) (m : Msg) (hsave :
       have hmem := find_some_mem hx
       have hxh := find_some_height hx
       rcases mem_addNew hmem with rfl | hmem
-      · exact ⟨rfl, fun _ => by simp⟩
+      · exact ⟨rfl, fun _ => longest_ge (by simp)⟩
       · exact absurd hxh ((find_none_iff.mp hf) x hmem)
 
 /-- the container update + height bump of `UponDecided` keeps the invariant (store not yet touched) -/
@@ -262,7 +268,7 @@ theorem CInv.branch {c : Ctrl} {st : Store} (inv : CInv c st) (h : Nat) (m : Msg
         · intro hr
           rcases hcase with ⟨hnd, _⟩ | ⟨_, _, hcm, _⟩
           · rw [hc.1] at hnd; cases hnd
-          · rw [hcm]; exact List.mem_append_left _ (hc.2.2 hr)
+          · rw [hcm]; exact Nat.le_trans (hc.2.2 hr) (longest_append_ge _ _ _ _)
       · rw [replaceInst_cons_other (by omega)]
         exact ⟨i0, _, rfl, hi0, hc⟩
   | none =>
@@ -362,6 +368,7 @@ theorem CInv.load {c : Ctrl} {st : Store} (inv : CInv c st) (full : Bool) :
     · intro a ha _; rw [hs] at ha; cases ha
       refine ⟨trim s.inst, [], rfl, rfl, hwf.1, rfl, ?_⟩
       intro hr
-      exact mem_trim_commits.mpr ⟨hwf.2 hr, hr⟩
+      rw [longest_trim s.inst _ _ hr]
+      exact hwf.2 hr
 
 end Ssv.Heights
